@@ -152,6 +152,77 @@ func C13(p *Prog, r *Run) {
 			"isActive of a control node is read although Flush never resets control nodes: "+badLoad)
 	})
 
+	r.Rule("C13.3", "no run-time state outside the nodes: every field of Network (or of the fast solver) written by the sweeps - not counting the pure topology queries of the depth functions - is reset by its Flush", func() {
+		depthFns := map[string]bool{"MaxActivationDepth": true, "MaxActivationDepthWithCap": true, "Depth": true, "maxActivationDepthFast": true}
+		for _, x := range []struct {
+			owner string
+			api   []string
+			flush string
+		}{{"Network", []string{"Network.ActivateSteps", "Network.Activate", "Network.ForwardSteps", "Network.RecursiveSteps", "Network.Relax", "Network.LoadSensors"}, "Network.Flush"}} {
+			var roots []*ssa.Function
+			for _, n := range x.api {
+				roots = append(roots, p.Func(PkgN, n))
+			}
+			re := p.Reachable(roots, func(f *ssa.Function) bool { return depthFns[f.Name()] })
+			flush := p.Func(PkgN, x.flush)
+			reset := map[string]bool{}
+			tmF := NewTermer(flush)
+			fre := p.Reachable([]*ssa.Function{flush}, nil)
+			for _, f := range fre.RepoFuncs() {
+				for _, e := range Writes(f) {
+					if e.Kind == "field" && e.Owner != nil && e.Owner.Obj().Name() == x.owner {
+						reset[e.Field.Name()] = true
+					}
+				}
+			}
+			_ = tmF
+			n := 0
+			seen := map[string]bool{}
+			for _, f := range re.RepoFuncs() {
+				if depthFns[f.Name()] {
+					continue
+				}
+				for _, e := range Writes(f) {
+					var fname string
+					switch e.Kind {
+					case "field":
+						if e.Owner == nil || e.Owner.Obj().Name() != x.owner {
+							continue
+						}
+						fname = e.Field.Name()
+					case "elem":
+						fld := ElemOwner(e)
+						if fld == nil {
+							continue
+						}
+						own := false
+						for _, cand := range p.Fields(PkgN, x.owner) {
+							if cand == fld {
+								own = true
+							}
+						}
+						if !own {
+							continue
+						}
+						fname = fld.Name() + "[*]"
+					default:
+						continue
+					}
+					if seen[fname] {
+						continue
+					}
+					seen[fname] = true
+					n++
+					r.Check(reset[strings.TrimSuffix(fname, "[*]")], x.owner+"."+fname, p.Pos(e.Instr.Pos()), "written by the sweeps and reset by "+x.flush,
+						fmt.Sprintf("%s.%s is written by %s (reached from the activation API via %s) but %s never resets it: a flushed network still remembers it", x.owner, fname, FuncName(e.Fn), strings.Join(re.Chain(e.Fn), " -> "), x.flush))
+				}
+			}
+			if n == 0 {
+				r.OK(x.owner+".stateless", p.Pos(flush.Pos()), "the sweeps write no field of "+x.owner+" itself: all run-time state lives in the nodes")
+			}
+		}
+	})
+
 	r.Rule("C13.2", "reset completeness for the fast solver: every solver array written by the activation API is reset by Flush over [biasNeuronCount,totalNeuronCount) or re-initialised by RecursiveSteps before any read", func() {
 		rt, _ := collect(fastAPI, "FastModularNetworkSolver")
 		flush := p.Func(PkgN, "FastModularNetworkSolver.Flush")
